@@ -36,9 +36,15 @@ def run(ctx):
     reqs, resolvers, metas = [], [], []
     dcases = []
     # always present: the empty plaintext and a one-octet plaintext with zip=DEF (the stream of "" is 03 00, not nothing)
-    forced = [("dir", "A128GCM", b"", True), ("A128KW", "A128CBC-HS256", b"", True), ("dir", "A256GCM", b"x", True), ("A256KW", "A128GCM", b"", False)]
-    todo = [(a, e_, None, None) for a, e_ in E.combos(rng, n)] + forced
-    for alg, enc, forced_pt, forced_zip in todo:
+    forced = [("dir", "A128GCM", b"", True, None), ("A128KW", "A128CBC-HS256", b"", True, None), ("dir", "A256GCM", b"x", True, None),
+              ("A256KW", "A128GCM", b"", False, None)]
+    # caller-chosen PBES2 parameters at and below the customary minimum: what the header says is what derives the key
+    for alg_, p2c_ in (("PBES2-HS256+A128KW", 1), ("PBES2-HS256+A128KW", 999), ("PBES2-HS384+A192KW", 10), ("PBES2-HS512+A256KW", 500),
+                       ("PBES2-HS256+A128KW", 1000), ("PBES2-HS512+A256KW", 1001)):
+        forced.append((alg_, "A128CBC-HS256", b"pbes2 with a caller p2c", False, {"p2c": p2c_}))
+    forced.append(("PBES2-HS256+A128KW", "A128GCM", b"pbes2 with a caller salt", False, {"p2s": "c2FsdHNhbHRzYWx0"}))
+    todo = [(a, e_, None, None, None) for a, e_ in E.combos(rng, n)] + forced
+    for alg, enc, forced_pt, forced_zip, forced_extra in todo:
         kn = E.key_name(alg, enc, rng)
         sender = K.key(E.SENDER[kn], private=True) if alg.startswith("ECDH-1PU") else None
         priv = K.key(kn, private=True)
@@ -48,6 +54,8 @@ def run(ctx):
             if (rng.random() < 0.35) if forced_zip is None else forced_zip:
                 prot["zip"] = "DEF"
             extra = rng.choice([{}, {"apu": "QWxpY2U", "apv": "Qm9i"}, {"apv": "Qg"}]) if alg.startswith("ECDH") else rng.choice([{}, {"typ": "x"}, {"kid": "k"}])
+            if forced_extra is not None:
+                extra = dict(forced_extra)
             aad = rng.choice([b"aad", b"\x00\x01"]) if ser != "compact" and rng.random() < 0.5 else None
             unprot = {"jku": "https://e.example/k"} if ser != "compact" and rng.random() < 0.3 else None
             reg = E.JReg()
@@ -97,8 +105,12 @@ def run(ctx):
                     return f"joserfc cannot decrypt its own {case.meta['serialization']} output for {alg}/{case.meta['enc']}: {impl2[1]}"
                 if impl2[1][0] != pt:
                     return "decrypting the library's own output returns a different plaintext"
-                got = {k_: v_ for k_, v_ in impl2[1][1].items() if k_ not in ("epk", "iv", "tag", "p2s", "p2c", "kid")}
-                exp = {k_: v_ for k_, v_ in want_prot.items() if k_ not in ("kid",)}
+                gen = ("epk", "iv", "tag", "p2s", "p2c", "kid")
+                got = {k_: v_ for k_, v_ in impl2[1][1].items() if k_ not in gen}
+                exp = {k_: v_ for k_, v_ in want_prot.items() if k_ not in gen}
+                for k_ in ("p2s", "p2c"):       # a caller-supplied PBES2 parameter comes back as given
+                    if k_ in want_prot and impl2[1][1].get(k_) != want_prot[k_]:
+                        return f"caller-supplied {k_}={want_prot[k_]!r} came back as {impl2[1][1].get(k_)!r}"
                 if got != exp:
                     return f"protected header returned {got} differs from the one given {exp}"
                 return None
